@@ -15,6 +15,8 @@ use crate::schedx::{CaseInfo, Judgement};
 
 #[derive(Clone, Debug)]
 pub struct Case {
+    /// writer 0 first runs a commit whose file-growing `mmap` fails (ENOMEM), then its normal one
+    pub mmap_fault: bool,
     pub writers: usize,
     pub readers: usize,
     pub liveness: bool,
@@ -26,18 +28,20 @@ pub struct Case {
 pub fn cases(tier: Tier) -> Vec<Case> {
     let q = tier == Tier::Quick;
     let mut v = vec![
-        Case { writers: 1, readers: 1, liveness: true, num_pages: 4, bound: 8 },
-        Case { writers: 1, readers: 1, liveness: true, num_pages: 64, bound: 8 },
-        Case { writers: 2, readers: 1, liveness: false, num_pages: 4, bound: if q { 2 } else { 3 } },
-        Case { writers: 3, readers: 0, liveness: false, num_pages: 4, bound: if q { 1 } else { 2 } },
-        Case { writers: 2, readers: 0, liveness: false, num_pages: 64, bound: if q { 3 } else { 4 } },
+        Case { mmap_fault: false, writers: 1, readers: 1, liveness: true, num_pages: 4, bound: if q { 4 } else { 8 } },
+        Case { mmap_fault: false, writers: 1, readers: 1, liveness: true, num_pages: 64, bound: if q { 4 } else { 8 } },
+        Case { mmap_fault: false, writers: 2, readers: 1, liveness: false, num_pages: 4, bound: if q { 2 } else { 3 } },
+        Case { mmap_fault: false, writers: 3, readers: 0, liveness: false, num_pages: 4, bound: if q { 1 } else { 2 } },
+        Case { mmap_fault: false, writers: 2, readers: 0, liveness: false, num_pages: 64, bound: if q { 3 } else { 4 } },
     ];
+    v.push(Case { mmap_fault: true, writers: 1, readers: 2, liveness: false, num_pages: 4, bound: if q { 2 } else { 3 } });
+    v.push(Case { mmap_fault: true, writers: 2, readers: 1, liveness: false, num_pages: 4, bound: if q { 1 } else { 2 } });
     if !q {
-        v.push(Case { writers: 3, readers: 1, liveness: false, num_pages: 4, bound: 2 });
-        v.push(Case { writers: 2, readers: 2, liveness: false, num_pages: 4, bound: 2 });
-        v.push(Case { writers: 3, readers: 2, liveness: false, num_pages: 4, bound: 1 });
+        v.push(Case { mmap_fault: false, writers: 3, readers: 1, liveness: false, num_pages: 4, bound: 2 });
+        v.push(Case { mmap_fault: false, writers: 2, readers: 2, liveness: false, num_pages: 4, bound: 2 });
+        v.push(Case { mmap_fault: false, writers: 3, readers: 2, liveness: false, num_pages: 4, bound: 1 });
     } else {
-        v.push(Case { writers: 2, readers: 2, liveness: false, num_pages: 4, bound: 1 });
+        v.push(Case { mmap_fault: false, writers: 2, readers: 2, liveness: false, num_pages: 4, bound: 1 });
     }
     v
 }
@@ -46,7 +50,7 @@ pub fn case_infos(tier: Tier) -> Vec<CaseInfo> {
     cases(tier)
         .iter()
         .map(|c| CaseInfo {
-            label: format!("{}w{}r{}-pages{}-c{}", c.writers, c.readers, if c.liveness { "-liveness" } else { "" }, c.num_pages, c.bound),
+            label: format!("{}w{}r{}{}-pages{}-c{}", c.writers, c.readers, if c.liveness { "-liveness" } else { "" }, if c.mmap_fault { "-mmapfault" } else { "" }, c.num_pages, c.bound),
             describe: json!({"writers": c.writers, "readers": c.readers, "writer_body": if c.liveness { "begin; put; await(reader finished); commit" } else { "begin; v = get(n); yield; put(n, v+1); yield; commit" }, "reader_body": if c.liveness { "begin; dump; drop; signal" } else { "begin; dump; yield; dump; drop" }, "initial_pages": c.num_pages, "preemption_bound": c.bound}),
         })
         .collect()
@@ -83,6 +87,28 @@ pub fn run_one(case: &Case, path: &str, prefix: &[u8], policy: RwPolicy) -> (Exe
         Ok(Ok(db)) => db,
         other => return (ExecResult { points: vec![], deadlock: None, diverged: Some(format!("cannot create base: {:?}", other.map(|r| r.map(|_| ())))), panics: vec![] }, vec![], String::new()),
     };
+    // pre-sized files start with a two-level tree that every writer changes a different key of, so
+    // that a writer working from stale allocation data damages pages the others still reference
+    let with_data = case.num_pages >= 64 && !case.liveness;
+    if with_data {
+        let r = real::guarded(|| -> Result<(), String> {
+            let tx = db.tx(true).map_err(|e| format!("{:?}", e))?;
+            let b = tx.create_bucket("data").map_err(|e| format!("{:?}", e))?;
+            for i in 0..6 {
+                b.put(format!("k{}", i), "w".repeat(300)).map_err(|e| format!("{:?}", e))?;
+            }
+            drop(b);
+            tx.commit().map_err(|e| format!("{:?}", e))?;
+            let tx = db.tx(true).map_err(|e| format!("{:?}", e))?;
+            let b = tx.get_bucket("data").map_err(|e| format!("{:?}", e))?;
+            b.put("k5", "v".repeat(290)).map_err(|e| format!("{:?}", e))?;
+            drop(b);
+            tx.commit().map_err(|e| format!("{:?}", e))
+        });
+        if !matches!(r, Ok(Ok(()))) {
+            return (ExecResult { points: vec![], deadlock: None, diverged: Some(format!("cannot prepare base: {:?}", r)), panics: vec![] }, vec![], String::new());
+        }
+    }
     let commits_done = Arc::new(AtomicI64::new(0));
     let inside = Arc::new(AtomicI64::new(0));
     let obs = Arc::new(Mutex::new(Obs::default()));
@@ -93,7 +119,44 @@ pub fn run_one(case: &Case, path: &str, prefix: &[u8], policy: RwPolicy) -> (Exe
         let inside = inside.clone();
         let obs = obs.clone();
         let liveness = case.liveness;
+        let mmap_fault = case.mmap_fault && w == 0;
         bodies.push(Box::new(move |ctx: &Ctx| {
+            if mmap_fault {
+                // a commit that has to grow the file and whose mmap fails: it must report the error,
+                // and the handle must stay usable (the next commit maps the grown file again)
+                let r = real::guarded(|| -> Result<(), String> {
+                    let tx = db.tx(true).map_err(|e| format!("{:?}", e))?;
+                    let b = tx.get_or_create_bucket("ctr").map_err(|e| format!("{:?}", e))?;
+                    b.put("fill", "y".repeat(3000)).map_err(|e| format!("{:?}", e))?;
+                    drop(b);
+                    crate::iosim::with_plan(|p| {
+                        p.armed = true;
+                        p.calls = 0;
+                        p.call_kinds.clear();
+                        p.fault_fired = false;
+                        p.fault = Some(crate::iosim::Fault::nth(crate::iosim::Kind::Mmap, 0, libc::ENOMEM));
+                    });
+                    let res = tx.commit();
+                    let fired = crate::iosim::with_plan(|p| {
+                        p.armed = false;
+                        p.fault = None;
+                        p.fault_fired
+                    })
+                    .unwrap_or(false);
+                    match res {
+                        Err(_) if fired => Ok(()),
+                        Err(e) => Err(format!("commit failed although no fault was injected: {:?}", e)),
+                        // another writer may have grown the file already: then no mmap is needed
+                        Ok(()) if !fired => Ok(()),
+                        Ok(()) => Err("the commit whose mmap failed returned Ok".to_string()),
+                    }
+                });
+                match r {
+                    Ok(Ok(())) => {}
+                    Ok(Err(e)) => obs.lock().unwrap().errors.push(format!("writer {}: faulted commit: {}", w, e)),
+                    Err(p) => obs.lock().unwrap().errors.push(format!("writer {}: faulted commit panicked: {}", w, p)),
+                }
+            }
             let c0 = commits_done.load(Ordering::SeqCst);
             let tx = match db.tx(true) {
                 Ok(tx) => tx,
@@ -123,6 +186,10 @@ pub fn run_one(case: &Case, path: &str, prefix: &[u8], policy: RwPolicy) -> (Exe
                 let b = tx.get_or_create_bucket("ctr").map_err(|e| format!("{:?}", e))?;
                 b.put("n", format!("{}", v + 1)).map_err(|e| format!("{:?}", e))?;
                 b.put(format!("pad{}", w), "x".repeat(300)).map_err(|e| format!("{:?}", e))?;
+                if with_data {
+                    let d = tx.get_bucket("data").map_err(|e| format!("{:?}", e))?;
+                    d.put(format!("k{}", w), format!("{}", w).repeat(310)).map_err(|e| format!("{:?}", e))?;
+                }
                 Ok(())
             });
             if let Err(e) | Ok(Err(e)) = r.map_err(|p| p) {
@@ -164,6 +231,13 @@ pub fn run_one(case: &Case, path: &str, prefix: &[u8], policy: RwPolicy) -> (Exe
                 views.push(read_counter(&tx));
             }
             drop(tx);
+            // the consistency check is a read-only transaction of its own: it must neither wait
+            // for an open writer nor find anything wrong
+            match real::guarded(|| db.check()) {
+                Ok(Ok(())) => {}
+                Ok(Err(e)) => obs.lock().unwrap().errors.push(format!("reader {}: DB::check(): {:?}", r, e)),
+                Err(p) => obs.lock().unwrap().errors.push(format!("reader {}: DB::check() panicked: {}", r, p)),
+            }
             obs.lock().unwrap().reader_views.push((r, c0, views));
             if liveness {
                 ctx.set_flag(0);
@@ -227,10 +301,25 @@ pub fn run_one(case: &Case, path: &str, prefix: &[u8], policy: RwPolicy) -> (Exe
     if res.deadlock.is_none() && res.diverged.is_none() && js.is_empty() {
         let cfg2 = cfg.clone();
         let want = case.writers as i64;
+        let nw = case.writers;
         let r = real::guarded(|| -> Result<(i64, Result<(), String>), String> {
             let db = cfg2.open(path).map_err(|e| format!("{:?}", e))?;
             let tx = db.tx(false).map_err(|e| format!("{:?}", e))?;
             let n = read_counter(&tx)?;
+            if with_data {
+                let d = tx.get_bucket("data").map_err(|e| format!("data bucket: {:?}", e))?;
+                for i in 0..6usize {
+                    let want: Vec<u8> = if i < nw { format!("{}", i).repeat(310).into_bytes() } else if i == 5 { "v".repeat(290).into_bytes() } else { "w".repeat(300).into_bytes() };
+                    match d.get_kv(format!("k{}", i)) {
+                        Some(kv) if kv.value() == want.as_slice() => {}
+                        Some(kv) => return Err(format!("data/k{} holds {} bytes starting {:?}, expected {} bytes starting {:?}", i, kv.value().len(), &kv.value()[..4.min(kv.value().len())], want.len(), &want[..4])),
+                        None => return Err(format!("data/k{} is missing", i)),
+                    }
+                }
+                if d.cursor().count() != 6 {
+                    return Err("data bucket does not hold exactly its 6 keys".into());
+                }
+            }
             drop(tx);
             Ok((n, db.check().map_err(|e| format!("{:?}", e))))
         });
